@@ -106,7 +106,21 @@ func init() {
 						return true
 					}
 					nchecked++
+					sides := []ast.Expr{cmp.X, cmp.Y}
+					// a compared local that names the arithmetic (`size := int64(len(s)) * int64(n.Int); size > max`,
+					// also through a conversion of the local)
 					for _, side := range []ast.Expr{cmp.X, cmp.Y} {
+						x := ast.Unparen(side)
+						if ce, ok := x.(*ast.CallExpr); ok && len(ce.Args) == 1 {
+							if tv, ok := info.Types[ce.Fun]; ok && tv.IsType() {
+								x = ast.Unparen(ce.Args[0])
+							}
+						}
+						if d := soleDef(info, u.Decl.Body, x); d != nil {
+							sides = append(sides, d)
+						}
+					}
+					for _, side := range sides {
 						ast.Inspect(side, func(m ast.Node) bool {
 							ar, ok := m.(*ast.BinaryExpr)
 							if !ok {
